@@ -333,12 +333,19 @@ func anyParamMethod(m methodRef) bool {
 }
 
 func runC08Values(c C08Case) (st Stats, err error) {
-	isCond := c.Recv == "cond"
+	isCond := c.Recv == "cond" || c.Recv == "cond-noop"
 	var sp, tw *stackage.Stack
 	var cp *stackage.Condition
 	if p := guard(func() {
 		if isCond {
 			cc := stackage.Cond("kw", stackage.Eq, "expr")
+			if c.Recv == "cond-noop" {
+				// initialised, keyword and expression set, but no operator
+				cc = stackage.Condition{}
+				cc.Init()
+				cc.SetKeyword("kw")
+				cc.SetExpression("expr")
+			}
 			cp = &cc
 		} else {
 			a := newStackOfKind(c.Kind, 0).Push("a", 2)
@@ -470,9 +477,9 @@ func enumC08(tier Tier, yield func(C08Case)) {
 		}
 	}
 	// every method with an `any`/Operator parameter x the whole catalogue, singly
-	for _, recv := range []string{"stack", "cond"} {
+	for _, recv := range []string{"stack", "cond", "cond-noop"} {
 		ms := stackMethods
-		if recv == "cond" {
+		if recv != "stack" {
 			ms = condMethods
 		}
 		for _, m := range ms {
@@ -512,7 +519,7 @@ func genC08(t *rapid.T, tier Tier) C08Case {
 	c := C08Case{Mode: "values", Recv: "stack", Kind: rapid.SampledFrom(stackKinds).Draw(t, "kind")}
 	ms := stackMethods
 	if rapid.IntRange(0, 3).Draw(t, "cond") == 0 {
-		c.Recv = "cond"
+		c.Recv = rapid.SampledFrom([]string{"cond", "cond-noop"}).Draw(t, "condkind")
 		ms = condMethods
 	}
 	// prefer methods with any-parameters
